@@ -20,7 +20,7 @@ struct Conn {
 };
 struct World {
     std::vector<Conn> conns; size_t cap; std::string log;
-    int L = 0; char wkind = 'w', rkind = 'r'; bool timeout = false, duplex = false, two = false; int shut_at = -1;
+    int L = 0; char wkind = 'w', rkind = 'r'; bool timeout = false, duplex = false, two = false, et = false; int shut_at = -1; bool all_done = false;
     int blocked_readers = 0, blocked_writers = 0;
 };
 static World* W;
@@ -121,12 +121,14 @@ static void stuck(const char* why) {
     pmc_violation("deadlock", "all threads blocked (%s): %s", s.c_str(), why);
 }
 
-// config "cap<C>:<w|s|v><L>:<r|c|x>[:t][:d][:2][:h<k>]"
+// config "cap<C>:<w|s|v><L>:<r|c|x>[:t][:d][:2][:h<k>][:et]"   :et = edge-triggered streams (ETKernelSocketStream over the thread-local ETPoller:
+// a second epoll nested in the master engine, polled by an event loop thread every 1 ms, so the run never goes quiescent: a watchdog judges)
 void pmc_run(const char* config) {
     World w; W = &w;
     int cap, L; char wk, rk; char rest[32] = "";
     if (sscanf(config, "cap%d:%c%d:%c%31s", &cap, &wk, &L, &rk, rest) < 4) pmc_broken("bad config %s", config);
     w.cap = cap; w.L = L; w.wkind = wk; w.rkind = rk;
+    w.et = strstr(rest, ":et"); if (w.et) *strstr(rest, ":et") = 0;
     w.timeout = strstr(rest, ":t"); w.duplex = strstr(rest, ":d"); w.two = strstr(rest, ":2");
     if (const char* h = strstr(rest, ":h")) w.shut_at = atoi(h + 2);
     pmc_window(0);
@@ -136,9 +138,13 @@ void pmc_run(const char* config) {
     reset_master_event_engine_default();
     fd_events_init(new_epoll_master_engine());          // the REAL engine, on simulated epoll
     int nconn = w.two ? 2 : 1; w.conns.resize(nconn);
-    for (auto& c : w.conns) { socketpair(AF_UNIX, SOCK_STREAM, 0, c.fd); for (int e = 0; e < 2; e++) c.s[e] = new KernelSocketStream(c.fd[e]); }
+    if (w.et) et_poller_init();
+    for (auto& c : w.conns) { socketpair(AF_UNIX, SOCK_STREAM, 0, c.fd); for (int e = 0; e < 2; e++) c.s[e] = w.et ? new ETKernelSocketStream(c.fd[e]) : new KernelSocketStream(c.fd[e]); }
     pmc_window(1);
     std::vector<join_handle*> jh;
+    // the ET poller's 1 ms polling keeps the vCPU from ever going idle for good: virtual time only moves when every thread is blocked, so
+    // reaching +30 ms with the transfer unfinished means everybody has been blocked on descriptors for 30 polling rounds
+    if (w.et) thread_create11(64 * 1024, [] { World* me = W; thread_usleep(30 * 1000); if (W == me && !me->all_done) stuck("edge-triggered streams: no progress for 30 ms of virtual time"); });
     for (int ci = 0; ci < nconn; ci++) {
         // reader first: it hits EAGAIN and registers interest before any byte exists
         jh.push_back(thread_enable_join(thread_create11(64 * 1024, reader, ci, 1)));
@@ -146,6 +152,7 @@ void pmc_run(const char* config) {
         if (w.duplex) { jh.push_back(thread_enable_join(thread_create11(64 * 1024, reader, ci, 0))); jh.push_back(thread_enable_join(thread_create11(64 * 1024, writer, ci, 1))); }
     }
     for (auto h : jh) thread_join(h);
+    w.all_done = true;
     pmc_window(0);
     for (auto& c : w.conns) for (int e = 0; e < 2; e++) {
         if (c.got[e] != c.sent[1 - e]) pmc_violation("bytes-lost-or-duplicated", "end %d received \"%s\" but the peer's writer was credited \"%s\"", e, c.got[e].c_str(), c.sent[1 - e].c_str());
@@ -153,6 +160,7 @@ void pmc_run(const char* config) {
     uint64_t ea = 0; for (auto& c : w.conns) for (int e = 0; e < 2; e++) ea += simk::F[c.fd[e] - simk::FD0].eagain_send * 100 + simk::F[c.fd[e] - simk::FD0].eagain_recv;
     pmc_obs("%s ew=%llu ev=%llu eagain=%llu", w.log.c_str(), (unsigned long long)simk::n_epoll_wait, (unsigned long long)simk::n_events_delivered, (unsigned long long)ea);
     for (auto& c : w.conns) for (int e = 0; e < 2; e++) delete c.s[e];
+    if (w.et) { et_poller_fini(); thread_usleep(40 * 1000); }      // let the watchdog thread end before the vCPU goes away
     sv::fini();
     W = nullptr;
 }
@@ -168,6 +176,10 @@ static const PmcConfig CFG[] = {
     {"cap2:w4:c:t",    3, {0,0}, {1,1}, {2,2}, {2,3}, "stream timeout fires while the second half is still to come; nothing is lost"},
     {"cap2:w4:c:t:d",  3, {0,0}, {1,1}, {1,2}, {2,2}, "... with the other direction of the same descriptors busy: the timeout must not disturb it"},
     {"cap2:w5:r:h3",   3, {0,0}, {0,0}, {2,3}, {0,0}, "peer shuts down after 3 of 5 bytes: read returns the bytes so far, then EOF"},
+    {"cap2:w5:r:et",   3, {0,0}, {0,0}, {2,3}, {0,0}, "edge-triggered stream: every wait depends on an edge reported by the nested poller"},
+    {"cap2:s4:c:d:et", 3, {0,0}, {0,0}, {1,2}, {0,0}, "edge-triggered, both directions of each descriptor awaited at once"},
+    {"cap2:v6:x:2:et", 3, {0,0}, {0,0}, {1,2}, {0,0}, "edge-triggered, two connections in one poller"},
+    {"cap2:w5:r:h3:et",3, {0,0}, {0,0}, {1,2}, {0,0}, "edge-triggered, peer shutdown (EOF edge)"},
     {"cap2:w4:c:d:2",  2, {0,0}, {0,0}, {2,3}, {0,0}, ""},
     {"cap4:v9:x:d",    2, {0,0}, {0,0}, {2,3}, {0,0}, ""},
 };
